@@ -94,6 +94,7 @@ def _literal_stress(r):
 
 
 def _fuzz_chunk(args):
+    import contextlib, io
     seed, n, corpus = args
     import signal
     from microjs import Context
@@ -130,7 +131,8 @@ def _fuzz_chunk(args):
         cnt += 1
         signal.setitimer(signal.ITIMER_PROF, 25)
         try:
-            Context(time_limit=1.0, memory_limit=5_000_000).eval(src)
+            with contextlib.redirect_stdout(io.StringIO()):       # (corpus programs print)
+                Context(time_limit=1.0, memory_limit=5_000_000).eval(src)
         except JSSyntaxError as e:
             nl = src.count("\n") + 1
             if not (1 <= e.line <= nl + 1 and e.column >= 0):
